@@ -404,6 +404,7 @@ class Func:
 
     def _forget_enum(self, envd, x):
         envd.pop(('D', x), None)
+        envd.pop(('P', x), None)
         for k in [k for k, v in envd.items() if isinstance(k, tuple) and k[0] in ('R', 'DA') and (v == x or (isinstance(v, tuple) and v[0] == x))]:
             envd.pop(k, None)
 
@@ -415,6 +416,42 @@ class Func:
                 if op['def'].endswith(suf):
                     return int(val)
         return v
+
+    def _env_operand(self, envd, op):
+        """value of an operand under the environment (constants, known scalar locals, the payload of an enum local
+        whose payload value is known); None when unknown"""
+        if op.get('k') == 'const':
+            return self.cval(op)
+        if 'l' not in op:
+            return None
+        if not op['p']:
+            l = op['l']
+            return envd.get(l, envd.get(envd.get(('A', l), l)))
+        ps = op['p']
+        if len(ps) == 2 and ps[0]['k'] == 'downcast' and ps[1]['k'] == 'field' and ps[1].get('i') == 0:
+            pv = envd.get(('P', op['l']))
+            if pv is not None and pv[0] == ps[0].get('vidx'):
+                return pv[1]
+        return None
+
+    _CMP = {'Eq': lambda a, b: a == b, 'Ne': lambda a, b: a != b, 'Lt': lambda a, b: a < b, 'Le': lambda a, b: a <= b,
+            'Gt': lambda a, b: a > b, 'Ge': lambda a, b: a >= b}
+
+    def _env_rvalue(self, envd, rv):
+        if rv is None:
+            return None
+        k = rv['k']
+        if k == 'use':
+            return self._env_operand(envd, rv['op'])
+        if k == 'bin' and rv.get('op') in self._CMP:
+            a, b = self._env_operand(envd, rv['a']), self._env_operand(envd, rv['b'])
+            if a is not None and b is not None:
+                return int(self._CMP[rv['op']](a, b))
+        if k == 'un' and rv.get('op') == 'Not' and (rv.get('ty') == 'bool' or rv['a'].get('ty') == 'bool'):
+            a = self._env_operand(envd, rv['a'])
+            if a is not None:
+                return 1 - a
+        return None
 
     def _env_assign(self, envd, x, rv, stable):
         """effect of `x = rv` (x a whole local) on the environment"""
@@ -445,7 +482,10 @@ class Func:
             if val is not None:
                 envd[x] = val
         else:
+            val = self._env_rvalue(envd, rv)
             forget(x)
+            if val is not None:
+                envd[x] = val
 
     def _env_block(self, envd, bb, i, upto=None):
         stable = self._stable_locals()
@@ -474,6 +514,12 @@ class Func:
                         if e2[('D', d[2]['place']['l'])] in inv:
                             e2[t['dest']['l']] = inv[e2[('D', d[2]['place']['l'])]]
             return [(x, e2) for x in succs]
+        if t['k'] == 'switch' and 'l' in t['discr'] and t['discr']['p']:
+            known = self._env_operand(envd, t['discr'])
+            if known is not None:
+                vals = {int(x): tgt for x, tgt in t['targets']}
+                only = vals.get(known, t['otherwise'])
+                return [(x, envd) for x in succs if x == only]
         if t['k'] == 'switch' and 'l' in t['discr'] and not t['discr']['p'] and t['discr']['l'] in stable:
             d = t['discr']['l']
             root = envd.get(('A', d), d)
@@ -578,6 +624,33 @@ class Func:
                 if (s, 0, env2) not in seen:
                     dq.append((s, 0, path + (s,), env2))
         return None
+
+    def reach_blocks(self, starts, env0=None, blockers=()):
+        """blocks entered on some path from starts (path-sensitive, like forward_paths_hit), not continuing
+        through blocker locations"""
+        blockers = set(blockers)
+        bl = defaultdict(list)
+        for t in blockers:
+            bl[t[0]].append(t[1])
+        seen = set()
+        out = set()
+        dq = deque()
+        for s in starts:
+            e0 = {**self._seed_env(s[0]), **(env0 or {})}
+            dq.append((s[0], s[1], frozenset(e0.items())))
+        while dq:
+            bb, i, env = dq.popleft()
+            if (bb, i, env) in seen:
+                continue
+            seen.add((bb, i, env))
+            out.add(bb)
+            if [x for x in bl.get(bb, []) if x >= i]:
+                continue
+            envd = dict(env)
+            self._env_block(envd, bb, i)
+            for s2, e2 in self._env_succs(bb, envd):
+                dq.append((s2, 0, frozenset(e2.items())))
+        return out
 
     def _armed_search(self, arm_at, targets, blockers, track=True):
         targets, blockers = set(targets), set(blockers)
